@@ -23,7 +23,7 @@ from ..common import seed
 
 Q = 4096
 CLASSES = {"const": (1.0, 0.0), "bit": (1.0, 0.0), "small": (1.0, 0.0), "byte": (85.0, 0.0), "wide_hi": (1000.0, -300.0),
-           "wide_lo": (0.01, 1.0), "neg": (-2.0, 7.0)}
+           "wide_lo": (0.01, 1.0), "neg": (-2.0, 7.0), "tiny": (2.0 ** -13, 0.0)}     # tiny: standard deviations of a few 1e-4 (exact in float32)
 
 
 def compositions(n):
@@ -74,6 +74,8 @@ def job(spec):
         L, C = base.shape
         data = (a * base + b).astype(np.float32)
         full = h["mode"] == "full"
+        # unpacked 1..8-bit blocks reach the accumulator as uint8 arrays: same values, another dtype
+        dt = np.uint8 if (h.get("dtype") == "u1" and (a, b) == (1.0, 0.0)) else np.float32
         mag = float(np.max(np.abs(data))) / abs(a)
         tolmean = int(math.ceil(mag * 2.0 ** -23 * L * 8 * Q * 8)) + 2
         tol = {"q": Q, "tolmean": tolmean, "tolvar": 6 * tolmean + 2, "tolskew": 3 + tolmean // 8, "tolkurt": 4 + tolmean // 4,
@@ -84,7 +86,7 @@ def job(spec):
         def push(k, lo, hi, first, nsamps):
             if k not in objs:
                 objs[k] = ChannelStats(C, nsamps)
-            objs[k].push_data(np.ascontiguousarray(data[lo:hi]).ravel(), 0 if first else lo, mode=h["mode"])
+            objs[k].push_data(np.ascontiguousarray(data[lo:hi]).ravel().astype(dt), 0 if first else lo, mode=h["mode"])
             ev.append(dict(tol, a="push", k=k, ka=0, kb=0, nsamps=nsamps, chunk=[[int(x) for x in row] for row in base[lo:hi]],
                            obs=observe(objs[k], a, b, full)))
         if h["kind"] == "file":
@@ -92,7 +94,7 @@ def job(spec):
             from sigpyproc.readers import FilReader
             from .. import fixtures as fx, pool as pl
             pth = pl.worker_scratch() / f"c10_{abs(hash(json.dumps(h, sort_keys=True))) % 10**9}.fil"
-            fx.write_fil(pth, data.ravel(), C, 32, fch1=1500.0, foff=-1.0)
+            fx.write_fil(pth, data.ravel(), C, 8 if dt == np.uint8 else 32, fch1=1500.0, foff=-1.0)
             fil = FilReader(str(pth))
             lo, n = h["start"], h["nsamps"]
             (fil.compute_stats if full else fil.compute_stats_basic)(gulp=h["gulp"], start=lo, nsamps=n, quiet=True)
@@ -180,6 +182,8 @@ def run(v) -> None:
                             if quick and (start * 5 + nsamps * 3 + gulp) % 3:
                                 continue
                             hists.append({"kind": "file", "cls": cls, "mode": mode, "stream": st, "start": start, "nsamps": nsamps, "gulp": gulp})
+    for i, h in enumerate(hists):
+        h["dtype"] = "u1" if i % 2 else "f4"
     specs = [{"hists": hists[i::14]} for i in range(14)]
     traces = [t for r in pool.pmap(job, specs, workers=14) for t in r]
     for t in traces:
